@@ -28,6 +28,7 @@ EXPLANATION = (
     'iteration) and the accumulator is returned.')
 EXPLANATION += ' C15.R3 also requires the 4096 limit to be tested on key and value as the tokenizer delivered them (no re-assignment reaching the guard); C15.R4 that ToHeader passes the stored text (or its part before the metadata separator) to UrlEncode unaltered; C15.R5 that the baggage is set into the context Extract was given.'
 ROUND2_EXPLANATION = (" C15.R6 also: with no propagator configured Extract returns the caller's context. C15.R7: the character predicate of keys / values accepts exactly 0x20..0x7E (all 256 bytes evaluated with char signed). C15.R8: a flag that calls in the member loop set through an out-parameter is re-initialised on every path from the start of an iteration to its first mention.")
+ROUND2_EXPLANATION += (' Shared C14.R8: a separator is written between members and not before the first. Shared C19.R1: the public baggage API hands out no mutable reference to the shared key-value store.')
 EXPLANATION += ROUND2_EXPLANATION
 NOT_DECIDED = 'round trip over all printable inputs; freedom from out-of-bounds reads on arbitrary bytes beyond the escape guard.'
 
